@@ -126,7 +126,7 @@ int main (int argc, char **argv)
 	int a, b, c, t, sq, p, f, rep, nch, nrep ;
 	vh_init (argc, argv, "c18_peak_signal_max", "C18") ;
 	vh_enum_formats () ;
-	nch = vh_thorough ? 8 : 5 ; nrep = vh_thorough ? 60 : 8 ;
+	nch = vh_thorough ? 8 : 5 ; nrep = vh_thorough ? 60 : 20 ;
 	for (a = 0 ; a < 5 ; a++) for (b = 0 ; b < 2 ; b++) for (c = 0 ; c < nch ; c++) for (t = 0 ; t < T_N ; t++) for (sq = 0 ; sq < 6 ; sq++) for (p = 0 ; p < 6 ; p++) for (rep = 0 ; rep < nrep ; rep++)
 	{	int format = majors [a] | (b ? SF_FORMAT_DOUBLE : SF_FORMAT_FLOAT) ;
 		if (!vh_accepts (format, chans [c], 44100)) continue ;
